@@ -87,7 +87,7 @@ def run(chk, tier):
                        "value formula of decoded_values and MomentData::values is compared, as an elementwise closed form, with the specification and "
                        "between the two; one-value-per-gate is checked as reader/writer agreement on the word size (necessary condition).")
     chk.trust("chrono axioms A1-A5 (C08); iterator map/collect is elementwise and order preserving; float operations are compared structurally, never re-associated")
-    ev = sym.Evaluator(prog, models=cm.MODELS)
+    ev = cm.evaluator(prog)
     want = radial_spec()
     got = {}
     for f in ("radial", "into_radial"):
